@@ -335,7 +335,47 @@ thread_local! {
     static MY_SLOT: std::cell::Cell<usize> = std::cell::Cell::new(usize::MAX);
 }
 
+thread_local! {
+    static CUR_FILE: RefCell<Option<std::fs::File>> = RefCell::new(None);
+}
+
+/// In an isolated shard process: record the tape of the case about to run, so that the parent can tell
+/// which case killed the process (stack overflow / abort cannot be caught in-process).
+fn record_current_tape(tape: &[u32]) {
+    if let Ok(path) = std::env::var("DSVERIF_CUR_FILE") {
+        CUR_FILE.with(|f| {
+            let mut f = f.borrow_mut();
+            if f.is_none() {
+                *f = std::fs::OpenOptions::new().create(true).write(true).truncate(true).open(&path).ok();
+            }
+            if let Some(file) = f.as_mut() {
+                use std::io::{Seek, SeekFrom, Write};
+                let mut buf: Vec<u8> = Vec::with_capacity(8 + tape.len() * 4);
+                buf.extend_from_slice(&(tape.len() as u64).to_le_bytes());
+                for x in tape {
+                    buf.extend_from_slice(&x.to_le_bytes());
+                }
+                let _ = file.seek(SeekFrom::Start(0));
+                let _ = file.write_all(&buf);
+            }
+        });
+    }
+}
+
+fn read_current_tape(path: &str) -> Option<Vec<u32>> {
+    let b = std::fs::read(path).ok()?;
+    if b.len() < 8 {
+        return None;
+    }
+    let n = u64::from_le_bytes(b[..8].try_into().ok()?) as usize;
+    if b.len() < 8 + n * 4 {
+        return None;
+    }
+    Some((0..n).map(|i| u32::from_le_bytes(b[8 + i * 4..12 + i * 4].try_into().unwrap())).collect())
+}
+
 fn slot_begin(section: &'static str, tape: &[u32]) {
+    record_current_tape(tape);
     let idx = MY_SLOT.with(|m| m.get());
     let mut g = SLOTS.lock().unwrap();
     let idx = if idx == usize::MAX {
@@ -536,6 +576,8 @@ fn run_random_shard(
         cases: cases as u32,
         failure_persistence: None,
         max_shrink_iters: 20_000,
+        // a time budget for shrinking only (never a verdict): the best reduction found so far is reported
+        max_shrink_time: std::env::var("VERIF_SHRINK_MS").ok().and_then(|v| v.parse().ok()).unwrap_or(45_000),
         max_global_rejects: 1_000_000,
         verbose: 0,
         ..Config::default()
@@ -651,7 +693,160 @@ fn run_exhaustive_shard(
     }
 }
 
+/// Sections whose cases may kill the process (abort, stack overflow): their shards run as child processes.
+pub fn isolated(prop: &str, section: &str) -> bool {
+    prop == "C07" && (section == "commands" || section == "text" || section == "commands-large")
+}
+
+fn stats_to_json(st: &Stats) -> Value {
+    json!({
+        "evaluations": st.evaluations,
+        "nontrivial": st.nontrivial.iter().collect::<Vec<_>>(),
+        "classes": st.classes,
+        "discarded": st.discarded,
+        "excluded_known": st.excluded_known,
+        "samples": st.samples,
+        "known_examples": st.known_examples,
+    })
+}
+
+fn stats_from_json(v: &Value) -> Stats {
+    let mut st = Stats::default();
+    st.evaluations = v["evaluations"].as_u64().unwrap_or(0);
+    if let Some(a) = v["nontrivial"].as_array() {
+        st.nontrivial = a.iter().filter_map(|x| x.as_u64()).collect();
+    }
+    let map = |k: &str| -> BTreeMap<String, u64> { v[k].as_object().map(|m| m.iter().map(|(k, x)| (k.clone(), x.as_u64().unwrap_or(0))).collect()).unwrap_or_default() };
+    st.classes = map("classes");
+    st.discarded = map("discarded");
+    st.excluded_known = map("excluded_known");
+    st.samples = v["samples"].as_array().cloned().unwrap_or_default();
+    st.known_examples = v["known_examples"].as_object().map(|m| m.iter().map(|(k, x)| (k.clone(), x.clone())).collect()).unwrap_or_default();
+    st
+}
+
+/// Entry point of a child process: runs one shard and prints its result as one JSON line.
+pub fn run_shard_child(p: &Property, section: &str, tier: Tier, seed: u64, shard: usize) -> i32 {
+    let sec = match p.sections.iter().find(|s| s.name == section) {
+        Some(s) => s,
+        None => return 2,
+    };
+    let (prop, name, case) = (p.id, sec.name, sec.case);
+    let plan = (sec.plan)(tier);
+    start_watchdog(p.id, std::env::var("VERIF_CASE_LIMIT_S").ok().and_then(|v| v.parse().ok()).unwrap_or(60));
+    let h = std::thread::Builder::new()
+        .stack_size(STACK)
+        .spawn(move || match plan {
+            Plan::Random { cases, max_len } => {
+                let per = (cases + SHARDS as u64 - 1) / SHARDS as u64;
+                run_random_shard(prop, name, case, per, max_len, shard_seed(seed, prop, name, shard))
+            }
+            Plan::Exhaustive { count } => run_exhaustive_shard(prop, name, case, count, shard),
+            Plan::Skip => SectionResult { stats: Stats::default(), violation: None, harness_error: None },
+        })
+        .expect("spawn");
+    let r = match h.join() {
+        Ok(r) => r,
+        Err(_) => return 2,
+    };
+    let out = json!({
+        "stats": stats_to_json(&r.stats),
+        "violation": r.violation.as_ref().map(|v| json!({"section": v.section, "signature": v.signature, "tape": v.tape, "detail": v.detail})),
+        "harness_error": r.harness_error,
+    });
+    println!("DSVERIF-SHARD-RESULT {}", out);
+    0
+}
+
+fn run_section_isolated(prop: &'static str, sec: &Section, tier: Tier, seed: u64) -> SectionResult {
+    let exe = std::env::current_exe().expect("current exe");
+    let dir = crate::hz::scratch_root();
+    let mut children = vec![];
+    for shard in 0..SHARDS {
+        let cur = format!("{}/cur-{}-{}-{}", dir, prop, sec.name, shard);
+        let _ = std::fs::remove_file(&cur);
+        let child = std::process::Command::new(&exe)
+            .args(["shard", prop, sec.name, if tier == Tier::Quick { "quick" } else { "thorough" }, &seed.to_string(), &shard.to_string()])
+            .env("DSVERIF_CUR_FILE", &cur)
+            .stdin(std::process::Stdio::null())
+            .stdout(std::process::Stdio::piped())
+            .stderr(std::process::Stdio::piped())
+            .spawn()
+            .expect("spawn shard process");
+        children.push((shard, cur, child));
+    }
+    let mut total = Stats::default();
+    let mut violation: Option<Violation> = None;
+    let mut herr = None;
+    // collect all children concurrently (a finished child blocks on its pipe until it is read)
+    let waiters: Vec<_> = children
+        .into_iter()
+        .map(|(shard, cur, child)| std::thread::spawn(move || (shard, cur, child.wait_with_output())))
+        .collect();
+    for w in waiters {
+        let (shard, cur, out) = w.join().expect("join waiter");
+        let out = out.expect("wait shard");
+        let stdout = String::from_utf8_lossy(&out.stdout).to_string();
+        let line = stdout.lines().rev().find(|l| l.starts_with("DSVERIF-SHARD-RESULT "));
+        match line {
+            Some(l) => {
+                let v: Value = serde_json::from_str(&l["DSVERIF-SHARD-RESULT ".len()..]).unwrap_or(Value::Null);
+                total.merge(stats_from_json(&v["stats"]));
+                if let Some(vi) = v["violation"].as_object() {
+                    let nv = Violation {
+                        section: vi["section"].as_str().unwrap_or("").to_string(),
+                        signature: vi["signature"].as_str().unwrap_or("").to_string(),
+                        tape: vi["tape"].as_array().map(|a| a.iter().map(|x| x.as_u64().unwrap_or(0) as u32).collect()).unwrap_or_default(),
+                        detail: vi["detail"].clone(),
+                    };
+                    let better = match &violation {
+                        None => true,
+                        Some(o) => (nv.tape.len(), &nv.tape) < (o.tape.len(), &o.tape),
+                    };
+                    if better {
+                        violation = Some(nv);
+                    }
+                }
+                if let Some(e) = v["harness_error"].as_str() {
+                    herr = Some(e.to_string());
+                }
+            }
+            None => {
+                // the shard process died: the case it was running is the culprit
+                use std::os::unix::process::ExitStatusExt;
+                let how = match out.status.signal() {
+                    Some(sig) => format!("signal-{}", sig),
+                    None => format!("exit-status-{}", out.status.code().unwrap_or(-1)),
+                };
+                let stderr = String::from_utf8_lossy(&out.stderr).to_string();
+                let tail: String = stderr.lines().rev().take(6).collect::<Vec<_>>().into_iter().rev().collect::<Vec<_>>().join(" | ");
+                if out.status.code() == Some(2) && stdout.contains("INCONCLUSIVE") {
+                    herr = Some(stdout.lines().find(|l| l.contains("INCONCLUSIVE")).unwrap_or("shard inconclusive").to_string());
+                } else {
+                    match read_current_tape(&cur) {
+                        Some(tape) => {
+                            let what = if tail.contains("overflowed its stack") { "stack-overflow".to_string() } else { how.clone() };
+                            violation = Some(Violation {
+                                section: sec.name.to_string(),
+                                signature: format!("process-aborted/{}", what),
+                                tape,
+                                detail: json!({"shard": shard, "termination": how, "stderr_tail": tail, "note": "the shard process died while running this case (not shrunk)"}),
+                            });
+                        }
+                        None => herr = Some(format!("shard {} died ({}) before running a case: {}", shard, how, tail)),
+                    }
+                }
+            }
+        }
+        let _ = std::fs::remove_file(&cur);
+    }
+    SectionResult { stats: total, violation, harness_error: herr }
+}
+
 pub fn run_section(prop: &'static str, sec: &Section, tier: Tier, seed: u64) -> SectionResult {
+    if isolated(prop, sec.name) && std::env::var("DSVERIF_NO_ISOLATE").is_err() {
+        return run_section_isolated(prop, sec, tier, seed);
+    }
     let plan = (sec.plan)(tier);
     let case = sec.case;
     let name = sec.name;
